@@ -218,26 +218,34 @@ def auto_discharge(prog, fn, v, op, a, b):
                 return True
             return x.ty == 'bool' or (x.kind == 'bin' and x.args[0] in ('Eq', 'Ne', 'Lt', 'Le', 'Gt', 'Ge'))     # a bool widened to an integer: 0 or 1
 
-        def counter(x, depth=0):
+        def unov(x):
             x = strip(x)
             if x.kind == 'load' and x.fields() == ('0',):
                 x = strip(x.args[0])
+            return x
+
+        def counter(x, depth=0, fam=None):
+            """x is built only from small constants, truth values and `member + small` over a family of merges (the loop
+            header's and the ones inside the loop body)"""
+            x = unov(x)
             if small(x):
                 return True
-            if depth > 4:
+            if depth > 5:
                 return False
+            fam = set(fam or ())
             if x.kind == 'phi' and not x.extra.get('anyof'):
+                if x.id in fam:
+                    return True
+                fam.add(x.id)
                 for a2 in x.args:
-                    a2 = strip(a2)
-                    if a2.kind == 'load' and a2.fields() == ('0',):
-                        a2 = strip(a2.args[0])
-                    if a2 is x or small(a2):
+                    a2 = unov(a2)
+                    if small(a2) or (a2.kind == 'phi' and a2.id in fam):
                         continue
                     if a2.kind == 'bin' and a2.args[0].replace('WithOverflow', '').replace('Unchecked', '') == 'Add':
-                        p1, p2 = strip(a2.args[1]), strip(a2.args[2])
-                        if (p1 is x and small(p2)) or (p2 is x and small(p1)):
+                        p1, p2 = unov(a2.args[1]), unov(a2.args[2])
+                        if (small(p2) and counter(p1, depth + 1, fam)) or (small(p1) and counter(p2, depth + 1, fam)):
                             continue
-                    if a2.kind == 'phi' and counter(a2, depth + 1):
+                    if a2.kind == 'phi' and counter(a2, depth + 1, fam):
                         continue
                     return False
                 return True
@@ -392,10 +400,29 @@ def is_dbg_span(sp):
     return bool(sp and sp[3] and any('debug_assert' in x for x in sp[3]))
 
 
+def commuted(sg):
+    """`Add(a, b)` <-> `Add(b, a)` (also Mul): the same site with its operands written the other way round"""
+    for op in ('Add(', 'Mul('):
+        if sg.startswith(op) and sg.endswith(')'):
+            inner = sg[len(op):-1]
+            depth = 0
+            for i, ch in enumerate(inner):
+                if ch == '(':
+                    depth += 1
+                elif ch == ')':
+                    depth -= 1
+                elif ch == ',' and depth == 0:
+                    return '%s%s, %s)' % (op, inner[i + 1:].strip(), inner[:i].strip())
+    return None
+
+
 def table_key(mk, name, sg):
-    for key in ((mk, name, sg), (mk, '*', sg)):
-        if key in TABLE:
-            return key
+    for sg2 in (sg, commuted(sg)):
+        if sg2 is None:
+            continue
+        for key in ((mk, name, sg2), (mk, '*', sg2)):
+            if key in TABLE:
+                return key
     # the function may have been moved to another file of the module
     for key in TABLE:
         if key[1] == name and key[2] == sg and name != '*':
